@@ -347,18 +347,19 @@ func genC04(g *Gen, n int) {
 			g.Emit("semver.canonicalversion "+hx(v), nt, "single")
 		case 7, 8, 9:
 			var w string
+			tag := "pair"
 			if g.Chance(25) {
 				d := c04Divergent(g.Rand, 2)
-				v, w, nt = d[0], d[1], true
+				v, w, nt, tag = d[0], d[1], true, "divergent-pair"
 			} else if g.Chance(60) {
 				w = genRelated(g.Rand, v)
 			} else {
 				w, _ = genVersion(g.Rand)
 			}
 			if g.Bool() {
-				g.Emit("semver.compare "+hx(v)+" "+hx(w), nt, "pair")
+				g.Emit("semver.compare "+hx(v)+" "+hx(w), nt, tag)
 			} else {
-				g.Emit("semver.max "+hx(v)+" "+hx(w), nt, "pair")
+				g.Emit("semver.max "+hx(v)+" "+hx(w), nt, tag)
 			}
 		default:
 			k := g.Intn(8)
